@@ -49,6 +49,7 @@ func runC10(c *Ctx) {
 	// a process attaches only to a file whose whole header is the one it would have written (the
 	// offsets of limit, table and records follow from the header length)
 	c09HeaderVerified(c, m, "C10.record-offsets")
+	c10HeaderLenRange(c, m, "C10.record-offsets")
 	c10Offsets(c, m)
 	c10Alignment(c, m)
 	c10ExtendTail(c, m, "C10.page-tail")
@@ -362,7 +363,7 @@ func c10Offsets(c *Ctx, m *Module) {
 	for _, fn := range []*ssa.Function{lk, pa} {
 		found := false
 		for _, cs := range callsIn(fn, "(*internal/counter.mappedFile).load32") {
-			p := newProver()
+			p := newProver().at(cs)
 			l := p.norm(argsOf(cs)[1])
 			four := 0
 			hdr := 0
@@ -731,4 +732,107 @@ func c10LengthWord(c *Ctx, m *Module, rule string) {
 func isZeroConst(v ssa.Value) bool {
 	k, ok := intConst(v)
 	return ok && k == 0
+}
+
+// evalRound: the value of an expression built from constants and calls of round(x, unit)
+// (round's contract: the smallest multiple of unit that is ≥ x, unit a power of two).
+func evalRound(v ssa.Value, depth int) (int64, bool) {
+	if depth > 8 {
+		return 0, false
+	}
+	v = strip(v)
+	if k, ok := intConst(v); ok {
+		return k, true
+	}
+	switch x := v.(type) {
+	case *ssa.Convert:
+		return evalRound(x.X, depth+1)
+	case *ssa.ChangeType:
+		return evalRound(x.X, depth+1)
+	case *ssa.BinOp:
+		a, ok1 := evalRound(x.X, depth+1)
+		b, ok2 := evalRound(x.Y, depth+1)
+		if !ok1 || !ok2 {
+			return 0, false
+		}
+		switch x.Op {
+		case token.ADD:
+			return a + b, true
+		case token.SUB:
+			return a - b, true
+		case token.MUL:
+			return a * b, true
+		}
+	case *ssa.Call:
+		if strings.HasPrefix(calleeName(&x.Call), "internal/counter.round[") && len(x.Call.Args) == 2 {
+			a, ok1 := evalRound(x.Call.Args[0], depth+1)
+			u, ok2 := evalRound(x.Call.Args[1], depth+1)
+			if ok1 && ok2 && u > 0 && u&(u-1) == 0 {
+				return (a + u - 1) &^ (u - 1), true
+			}
+		}
+	}
+	return 0, false
+}
+
+// c10HeaderLenRange: the readers (Parse, and openMapped where it reads the length word) accept
+// every header length the writer can produce: from round(prefix,4)+4 (no metadata) up to
+// round(round(prefix,4)+4+maxMetaLen, recordUnit). A reader with a tighter cap rejects files that
+// mappedHeader wrote (a header with 481..512 bytes of metadata, say).
+func c10HeaderLenRange(c *Ctx, m *Module, rule string) {
+	r := c.R
+	prefixLen := int64(len(m.ConstVal("internal/counter", "hdrPrefix")))
+	maxMeta, _ := strconv.ParseInt(m.ConstVal("internal/counter", "maxMetaLen"), 10, 64)
+	np := (prefixLen + 3) &^ 3
+	minHdr := np + 4
+	maxHdr := (np + 4 + maxMeta + 31) &^ 31
+	n := 0
+	for _, fn := range []*ssa.Function{m.Func("internal/counter", "Parse"), m.Func("internal/counter", "openMapped")} {
+		for _, in := range instrsOf(fn) {
+			bo, ok := in.(*ssa.BinOp)
+			if !ok {
+				continue
+			}
+			switch bo.Op {
+			case token.LSS, token.LEQ, token.GTR, token.GEQ:
+			default:
+				continue
+			}
+			isWord := func(v ssa.Value) bool {
+				d := describe(v)
+				return strings.Contains(d, "*conv<*uint32>(conv<unsafe.Pointer>(&") && strings.Contains(d, "[internal/counter.round[int](") && !strings.Contains(d, " + ")
+			}
+			var k int64
+			var okK, wordLeft bool
+			if isWord(bo.X) {
+				k, okK = evalRound(bo.Y, 0)
+				wordLeft = true
+			} else if isWord(bo.Y) {
+				k, okK = evalRound(bo.X, 0)
+			}
+			if !okK {
+				continue
+			}
+			n++
+			// normalise to: word REL k
+			op := bo.Op
+			if !wordLeft {
+				op = map[token.Token]token.Token{token.LSS: token.GTR, token.LEQ: token.GEQ, token.GTR: token.LSS, token.GEQ: token.LEQ}[op]
+			}
+			okRange := true
+			switch op {
+			case token.GTR: // word > k rejects: k must not cut off maxHdr
+				okRange = k >= maxHdr
+			case token.GEQ:
+				okRange = k > maxHdr
+			case token.LSS: // word < k rejects: k must not cut off minHdr
+				okRange = k <= minHdr
+			case token.LEQ:
+				okRange = k < minHdr
+			}
+			r.Check(rule, fmt.Sprintf("%s/header length bound #%d admits every header the writer produces", short(refName(fn)), n), m.Pos(bo.Pos()), okRange,
+				fmt.Sprintf("the writer produces header lengths %d..%d; this comparison (%s %d) cuts into that range", minHdr, maxHdr, op, k))
+		}
+	}
+	r.Check(rule, "header length bounds enumerated", "-", n >= 2, fmt.Sprintf("%d", n))
 }
